@@ -57,6 +57,11 @@ class _float(float):
     def __hash__(self):
         return super().__hash__() + 1
 
+    # The shifted hash alone does not separate -1.0 from -1 and -2.0 from -2 (CPython maps the
+    # hash value -1 to -2), so a wrapped float is only ever equal to another wrapped float.
+    def __eq__(self, other):
+        return type(other) is _float and float.__eq__(self, other)
+
 
 class _TypedSetDefaultDict(dict):
     """Dictionary that is guaranteed to store differently typed values separately.
